@@ -706,7 +706,13 @@ fault_done:
     switch (op.k) {
       case INSERT_C: case INSERT_M: case EMPLACE: case NODE_FROM_TEMP: case NODE_FROM_TEMP_HINT: key = op.a; break;
       case HINT_C: case HINT_M: case EMPLACE_HINT: key = op.b; break;
-      case EXTRACT_KEY_INS: case EXTRACT_POS_INS: case EXTRACT_KEY_INS_HINT: case EMPTY_NODE_INS: case ERASE_KEY: case ERASE_POS: case ERASE_RANGE:
+      case EXTRACT_KEY_INS: case EXTRACT_KEY_INS_HINT: case EXTRACT_POS_INS:
+        // the node goes into set op.j: when that is ANOTHER set of the pool it gains an element and may be full (no exact
+        // check here, the observers validate both sets after the models have been re-read); re-inserting into the set
+        // the node came from can never exceed its capacity
+        key = op.j != i ? -2 : -3;
+        break;
+      case EMPTY_NODE_INS: case ERASE_KEY: case ERASE_POS: case ERASE_RANGE:
       case CLEAR: case ERASE_LOOP: case ERASE_IF: case SWAP_MEMBER: case SWAP_FREE: case COPY_ASSIGN: case MOVE_ASSIGN: case COPY_CONSTRUCT:
       case MOVE_CONSTRUCT: case SHRINK: case STEAL_VECTOR: key = -3; break;
       default: break;
